@@ -492,7 +492,8 @@ package actions
 //@   ensures retired: err == nil ==> deliveries.exists(data.DeliveryID) && !deliveries.completed_at$null(data.DeliveryID)
 //@   ensures source_row_kept: deliveries.message_id(data.DeliveryID) == old(deliveries.message_id(data.DeliveryID)) && deliveries.subscription_id(data.DeliveryID) == old(deliveries.subscription_id(data.DeliveryID)) &&
 //@             deliveries.expires_at(data.DeliveryID) == old(deliveries.expires_at(data.DeliveryID)) && deliveries.attempts(data.DeliveryID) == old(deliveries.attempts(data.DeliveryID)) &&
-//@             deliveries.attempt_at(data.DeliveryID) == old(deliveries.attempt_at(data.DeliveryID)) && deliveries.published_at(data.DeliveryID) == old(deliveries.published_at(data.DeliveryID))
+//@             deliveries.attempt_at(data.DeliveryID) == old(deliveries.attempt_at(data.DeliveryID)) && deliveries.published_at(data.DeliveryID) == old(deliveries.published_at(data.DeliveryID)) &&
+//@             deliveries.exists(data.DeliveryID) && deliveries.not_before_id$null(data.DeliveryID) == old(deliveries.not_before_id$null(data.DeliveryID)) && deliveries.not_before_id(data.DeliveryID) == old(deliveries.not_before_id(data.DeliveryID))
 //@   ensures others_kept: [C02] forall d Id :: old(deliveries.exists(d)) && d != data.DeliveryID ==> delivery_unchanged(d)
 //@   ensures forwarded_sound: err == nil ==> (forall d Id :: !old(deliveries.exists(d)) && deliveries.exists(d) ==>
 //@             deliveries.message_id(d) == data.DeliveryMessageID && live_topic(data.DeadLetterTopicID) && live_sub(deliveries.subscription_id(d)) &&
@@ -567,3 +568,39 @@ package actions
 //@   requires a != nil
 //@   ensures err == nil ==> a.results != nil && (forall i int :: {a.results.Deliveries[i]} 0 <= i && i < len(a.results.Deliveries) ==> a.results.Deliveries[i] != nil)
 //@   modifies T:*, S:*, F:actions.GetSubscriptionMessages:*, F:actions.getSubscriptionMessagesResults:*, E:*actions.SubscriptionMessageDelivery:*, F:actions.SubscriptionMessageDelivery:*
+
+// ---- C06: the dead-letter sweep. It retires exactly deliveries that have used up their attempts on a live
+// subscription with a full dead-letter configuration (open, unexpired, due), forwards each of them through the
+// dead-letter routine to that subscription's dead-letter topic, leaves every other existing delivery unchanged,
+// and misses none unless it hit its batch limit.
+//@ func (*DeadLetterDeliveries).Execute(a, ctx, tx) (err)
+//@   property C06
+//@   uses tables notifyspec
+//@   requires a != nil && tx != nil && deliveries_wf()
+//@   ensures only_exhausted: exists now clock :: (forall d Id :: {deliveries.completed_at$null(d)} old(deliveries.exists(d)) ==>
+//@             delivery_unchanged(d) || (old(exhausted(d, now)) && delivery_retired(d)))
+//@   ensures none_missed: err == nil ==> exists now clock :: (a.results != nil && (a.params.MaxDeliveries < 0 || a.results.NumDeadLettered < a.params.MaxDeliveries) ==>
+//@             (forall d Id :: {deliveries.completed_at$null(d)} old(exhausted(d, now)) ==> delivery_retired(d)))
+//@   ensures forwarded_to_dl_topic: err == nil ==> (forall d Id :: {deliveries.message_id(d)} !old(deliveries.exists(d)) && deliveries.exists(d) ==>
+//@             deliveries.completed_at$null(d) && deliveries.attempts(d) == 0 && live_sub(deliveries.subscription_id(d)) &&
+//@             (exists e Id :: {deliveries.completed_at$null(e)} old(deliveries.exists(e)) && delivery_retired(e) && old(deliveries.completed_at$null(e)) && deliveries.message_id(e) == deliveries.message_id(d) &&
+//@                subscriptions.topic_id(deliveries.subscription_id(d)) == subscriptions.dead_letter_topic_id(deliveries.subscription_id(e))))
+//@   ensures wakes: [C10] err == nil ==> (forall d Id :: !old(deliveries.exists(d)) && deliveries.exists(d) ==> wake_on_commit(deliveries.subscription_id(d)))
+//@   ensures no_swallowed_failure: [C09] dbfailed() && !old(dbfailed()) ==> err != nil
+//@   modifies T:deliveries:*, CB:*, E:*ent.DeliveryCreate:, S:dbfailed, S:wake_on_commit, F:actions.DeadLetterDeliveries:actionBase.results, F:actions.DeadLetterDeliveriesResults:*, E:actions.deadLetterData:*, F:actions.actionTimer:*
+//@   loop 1
+//@     invariant tx != nil && a != nil && idx < len(deliveryData)
+//@     invariant sel_open: forall k int :: {deliveryData[k].DeliveryID} 0 <= k && k < len(deliveryData) ==> old(outstanding(cur(deliveryData[k].DeliveryID), now)) && old(deliveries.attempt_at(cur(deliveryData[k].DeliveryID))) <= now
+//@     invariant sel_sub: forall k int :: {deliveryData[k].DeliveryID} 0 <= k && k < len(deliveryData) ==> old(live_sub(deliveries.subscription_id(cur(deliveryData[k].DeliveryID))))
+//@     invariant sel_dl: forall k int :: {deliveryData[k].DeliveryID} 0 <= k && k < len(deliveryData) ==> old(dl_full(deliveries.subscription_id(cur(deliveryData[k].DeliveryID))))
+//@     invariant sel_att: forall k int :: {deliveryData[k].DeliveryID} 0 <= k && k < len(deliveryData) ==> old(deliveries.attempts(cur(deliveryData[k].DeliveryID))) >= old(subscriptions.max_delivery_attempts(deliveries.subscription_id(cur(deliveryData[k].DeliveryID))))
+//@     invariant sel_cols: forall k int :: {deliveryData[k].DeliveryID} 0 <= k && k < len(deliveryData) ==> old(deliveries.message_id(cur(deliveryData[k].DeliveryID))) == deliveryData[k].DeliveryMessageID && old(deliveries.subscription_id(cur(deliveryData[k].DeliveryID))) == deliveryData[k].DeliverySubscriptionID &&
+//@                 old(subscriptions.dead_letter_topic_id(deliveries.subscription_id(cur(deliveryData[k].DeliveryID)))) == deliveryData[k].DeadLetterTopicID
+//@     invariant distinct: forall k1 int, k2 int :: {deliveryData[k1].DeliveryID, deliveryData[k2].DeliveryID} 0 <= k1 && k1 < k2 && k2 < len(deliveryData) ==> deliveryData[k1].DeliveryID != deliveryData[k2].DeliveryID
+//@     invariant done: forall k int :: {deliveryData[k].DeliveryID} 0 <= k && k <= idx ==> delivery_retired(deliveryData[k].DeliveryID)
+//@     invariant pending: forall k int :: {deliveryData[k].DeliveryID} idx < k && k < len(deliveryData) ==> delivery_unchanged(deliveryData[k].DeliveryID)
+//@     invariant others: forall d Id :: {deliveries.completed_at$null(d)} old(deliveries.exists(d)) ==> delivery_unchanged(d) || (exists k int :: 0 <= k && k <= idx && deliveryData[k].DeliveryID == d)
+//@     invariant created: forall d Id :: {deliveries.message_id(d)} !old(deliveries.exists(d)) && deliveries.exists(d) ==>
+//@                 deliveries.completed_at$null(d) && deliveries.attempts(d) == 0 && live_sub(deliveries.subscription_id(d)) && wake_on_commit(deliveries.subscription_id(d)) &&
+//@                 (exists k int :: 0 <= k && k <= idx && deliveries.message_id(d) == deliveryData[k].DeliveryMessageID && subscriptions.topic_id(deliveries.subscription_id(d)) == deliveryData[k].DeadLetterTopicID)
+//@     invariant !dbfailed() || old(dbfailed())
